@@ -179,6 +179,58 @@ fn convert_native(def: &RecordDefinition<NativeDatumDetails>, res: &SynthResolve
     conv_out(r, || tb.snap())
 }
 
+/// C20 / C18 probe run once per invocation: type names in spellings that a normaliser would rewrite must survive
+/// copy_datum and a replay verbatim, with the size, alignment and flag they were registered with
+fn name_fidelity_probe() -> Vec<(String, String)> {
+    use truc::record::definition::builder::native::DatumDefinitionOverride;
+    let res = SynthResolver;
+    let names = ["Vec<u8>", "alloc::string::String", "Option < u32 >", "(u8,u16)", "[u8;4]", "my_crate::string::String", "Box<dyn Fn()>"];
+    let mut fails = Vec::new();
+    let r = catch_unwind(AssertUnwindSafe(|| {
+        let mut sb = NativeRecordDefinitionBuilder::new(&res);
+        for (k, n) in names.iter().enumerate() {
+            sb.add_datum_override::<(), _>(
+                format!("f{}", k),
+                DatumDefinitionOverride { type_name: Some((*n).to_owned()), size: Some(k + 1), align: Some(1 << (k % 4)), allow_uninit: Some(k % 2 == 0) },
+            )
+            .unwrap();
+            if k == 3 {
+                sb.close_record_variant_with(variant::simple);
+            }
+        }
+        sb.close_record_variant_with(variant::simple);
+        let def = sb.build();
+        for s in 0..4u8 {
+            let mut tb = NativeRecordDefinitionBuilder::new(&res);
+            let m = convert_record_definition(&def, |b: &mut NB, d| b.copy_datum(d), |b: &mut NB, i| b.remove_datum(i), |b: &mut NB| close_with(b, s), &mut tb);
+            if m.is_err() {
+                fails.push(("C20".to_owned(), format!("replay of the type-name probe definition with strategy {} failed: {:?}", s, m)));
+                continue;
+            }
+            let t = tb.build();
+            for (k, n) in names.iter().enumerate() {
+                let found = t.datum_definitions().find(|d| d.name() == format!("f{}", k));
+                match found {
+                    None => fails.push(("C20".to_owned(), format!("replayed definition has no datum f{}", k))),
+                    Some(d) => {
+                        let got = (d.details().type_name().to_owned(), d.details().size(), d.details().type_align(), d.details().allow_uninit());
+                        let want = ((*n).to_owned(), k + 1, 1usize << (k % 4), k % 2 == 0);
+                        if got != want {
+                            fails.push(("C20".to_owned(), format!("copy_datum / replay changed the type information of a datum: registered {:?}, target has {:?}", want, got)));
+                        }
+                    }
+                }
+            }
+        }
+    }));
+    if r.is_err() {
+        fails.push(("C20".to_owned(), "the type-name probe panicked".to_owned()));
+    }
+    fails.sort();
+    fails.dedup();
+    fails
+}
+
 fn convert_generic(def: &RecordDefinition<NativeDatumDetails>, rev: bool) -> ConvOut {
     type GB = GenericRecordDefinitionBuilder<NativeDatumDetails>;
     let mut tb = GB::new();
@@ -866,6 +918,9 @@ fn main() {
     let mut agg = BTreeMap::<&str, u64>::new();
     let mut distinct = BTreeSet::new();
     let mut size_hist = BTreeMap::<usize, u64>::new();
+    for (p, what) in name_fidelity_probe() {
+        writeln!(oracle_out, "{{\"case\":-1,\"property\":{},\"what\":{},\"history\":{}}}", json_str(&p), json_str(&what), json_str("(probe: type names through copy_datum and a replay)")).unwrap();
+    }
     for (k, h) in histories.iter().enumerate() {
         let r = run_history(h);
         let text = hist_text(h);
